@@ -69,6 +69,15 @@ def gen_framing(tier, seed):
         big = session(tk, n2=6000)
         add("bigdata", tk, tr, md, big, list(range(1, len(big))))
         add("bigdata-cut", tk, tr, md, big, list(range(1, len(big))), [[6, 4000]])
+        # several large data packets in one transport message (more than one maximal packet's worth of bytes), and
+        # maximal packets one per message
+        huge = session(tk)[:4] + [{"k": "data", "cls": "valid", "n": 30000}, {"k": "data", "cls": "valid", "n": 30000}, {"k": "data", "cls": "valid", "n": 30000},
+                                  {"k": "data", "cls": "valid", "n": 9}, {"k": "close", "cls": "valid"}]
+        add("coalesce:huge", tk, tr, md, huge, [1, 2, 3, 4, 7, 8])
+        add("coalesce:huge-all", tk, tr, md, huge, [1, 2, 3, 4])
+        maxp = session(tk)[:4] + [{"k": "data", "cls": "valid", "n": 65535}, {"k": "data", "cls": "valid", "n": 65534}, {"k": "data", "cls": "valid", "n": 65535}, {"k": "close", "cls": "valid"}]
+        add("maxpackets", tk, tr, md, maxp, list(range(1, len(maxp))))
+        add("coalesce:max", tk, tr, md, maxp, [1, 2, 3, 4, 7])
         # random multi-cut splits with chunk boundaries independent of packets
         for r in range(12 if tier == "quick" else 150):
             b = [x for x in allb if rng.random() < 0.5]
@@ -230,6 +239,8 @@ def gen_relay(work, tier, seed):
         for k in range(10 if tier == "quick" else 80):
             nb = rng.choice([2, 2, 3, 4, 6])
             sizes = [rng.choice([1, 2, 9, 100, 300, 1000, 4085, 4086] if tr == "ws" else [1, 2, 9, 100, 300, 700]) for _ in range(nb)]
+            if k < 2:
+                sizes = [[30000, 30000, 30000], [65535, 65535]][k]   # more than one maximal packet's worth in one write
             acts = [{"a": "cs", "decl": 50, "carr": 50}, {"a": "burst", "sizes": sizes}, {"a": "bs", "n": 200}, {"a": "burst", "sizes": sizes[::-1]}, {"a": "cs", "decl": 7, "carr": 7}]
             token = k % 2 == 0
             scripts.append({"id": "y%05d" % len(scripts), "origin": "burst:%d" % nb, "cfg": base_cfg(token), "transport": tr,
